@@ -145,10 +145,6 @@ pub fn kf_shape(gq: &GenQuery, t: &LogicalTable, layout: &Layout) -> Vec<&'stati
     if q.order_by.len() >= 2 && q.order_by[..q.order_by.len() - 1].iter().any(|(e, _)| col_has_null(e)) {
         out.push("KF-orderby-multikey-null");
     }
-    // single nullable key with a LIMIT: the top-n path has no fused type for narrow nullable encodings
-    if q.order_by.len() == 1 && q.limit.is_some() && col_has_null(&q.order_by[0].0) {
-        out.push("KF-topn-nullable");
-    }
     // a key column that is entirely NULL/absent in some partition while typed in another: merge has no common type
     if q.order_by.iter().any(|(e, _)| col_null_in_some_batch(e)) && ranges.len() > 1 {
         out.push("KF-orderby-null-typed-partition");
